@@ -22,7 +22,7 @@ pub fn meta() -> PropMeta {
     PropMeta {
         id: "C06",
         level: "exploration",
-        rule: "the public transport::Transport is used directly as Sink/Stream over the harness pipe. Outbound: generated (peer max-frame-size in [512,65536] incl. boundary values, channel, any of the nine performatives with independent field presence; transfers with payload lengths around k*frame-body (k<=5), tag length 0..32, optional fields, pre-set more flag) x write chunk schedule; the bytes written are parsed by the independent frame parser: complete frames only, each size <= peer max and >= 8, doff 2, type 0, right channel; a non-transfer is exactly one frame whose body equals the model; a transfer is n>=1 frames with more=true on all but the last (last = original flag), payloads concatenating to the original, first frame carrying id/tag/format and continuation frames the same values or none. Inbound: reference-encoded frames (variant choices) are fed through every generated read partition (1-byte reads, cuts inside the 8-byte header): decoded frames must equal the single-chunk decoding and the model. Non-trivial: transfer split into >=2 frames or a partition that cuts inside a frame header; distinct by hash of the case.",
+        rule: "(transport) the public transport::Transport is used directly as Sink/Stream over the harness pipe. Outbound: generated (peer max-frame-size in [512,65536] incl. boundary values, channel, any of the nine performatives with independent field presence; transfers with payload lengths around k*frame-body (k<=5), tag length 0..32, optional fields, pre-set more flag) x write chunk schedule; the bytes written are parsed by the independent frame parser: complete frames only, each size <= peer max and >= 8, doff 2, type 0, right channel; a non-transfer is exactly one frame whose body equals the model; a transfer is n>=1 frames with more=true on all but the last (last = original flag), payloads concatenating to the original, first frame carrying id/tag/format and continuation frames the same values or none. Inbound: reference-encoded frames (variant choices) are fed through every generated read partition (1-byte reads, cuts inside the 8-byte header): decoded frames must equal the single-chunk decoding and the model. Non-trivial: transfer split into >=2 frames or a partition that cuts inside a frame header. (endpoint) a real client (own max-frame-size 512..4096) opened towards a scripted peer advertising 512..65536: messages sent by the client must arrive in frames no larger than the peer's value with payloads concatenating to the message; deliveries sent by the peer in frames of exactly (endpoint's max-frame-size - k), k=0..8, must be decoded and reassembled. Non-trivial: an outgoing split or an incoming frame of exactly the maximum size. Distinct by hash of the case.",
         assumptions: &["non-transfer performatives are generated small enough to fit one frame (precondition every caller of the transport respects); the peer max-frame-size is raised to fit otherwise"],
         nontrivial_floor: 0.2,
         run,
@@ -326,12 +326,176 @@ fn case(ctx: &ShardCtx, c: &Case, obs: &mut Obs) -> Result<(), String> {
     }
 }
 
+// ---------------------------------------------------------------------------
+// endpoint variant: the negotiated sizes as a connection applies them (outgoing frames bounded by the
+// peer's max-frame-size, incoming frames accepted up to the endpoint's own)
+
+#[derive(Clone, Debug, Serialize, Deserialize, Hash)]
+pub struct CaseE {
+    pub ep_mfs: u32,
+    pub peer_mfs: u32,
+    /// body sizes of messages the endpoint sends
+    pub out_sizes: Vec<u32>,
+    /// for each incoming delivery: every non-final frame is exactly ep_mfs - k bytes long
+    pub in_k: Vec<u8>,
+    pub tokio_seed: u64,
+    pub choices: Vec<u8>,
+}
+
+pub fn case_e_strategy() -> BoxedStrategy<CaseE> {
+    (
+        prop_oneof![Just(512u32), Just(1000), Just(1024), Just(4096), 512u32..3000],
+        prop_oneof![Just(512u32), Just(600), Just(1024), Just(4096), Just(65536), 512u32..3000],
+        vec(prop_oneof![0u32..64, (prop_oneof![Just(512u32), Just(1024), Just(4096)], 0u32..4, -40i64..8).prop_map(|(b, k, d)| ((b * k) as i64 + d).max(0) as u32)], 1..4),
+        vec(0u8..9, 1..4),
+        any::<u64>(),
+        gen::choices_bytes(),
+    )
+        .prop_map(|(ep_mfs, peer_mfs, out_sizes, in_k, tokio_seed, choices)| CaseE { ep_mfs, peer_mfs, out_sizes, in_k, tokio_seed, choices })
+        .boxed()
+}
+
+fn data_message(seq: u32, len: u32) -> (fe2o3_amqp::types::messaging::Message<fe2o3_amqp::types::messaging::Body<fe2o3_amqp::types::primitives::Value>>, Vec<u8>) {
+    use fe2o3_amqp::types::messaging::{message::__private::Serializable, Body, Data, Message};
+    let mut v = seq.to_le_bytes().to_vec();
+    v.extend((0..len).map(|i| (i.wrapping_mul(13).wrapping_add(seq) % 251) as u8));
+    let m = Message::builder().data(serde_amqp::primitives::Binary::from(v)).build().map_body(|d: Data| Body::Data(vec![d].into()));
+    let enc = serde_amqp::to_vec(&Serializable(&m)).expect("encode");
+    (m, enc)
+}
+
+pub async fn run_endpoint(c: &CaseE) -> Result<(bool, bool), String> {
+    use crate::peer::{answer_attach, as_bool, as_uint, client_rig, ClientRig, Peer, RigCfg};
+    use fe2o3_amqp::types::messaging::Body;
+    use fe2o3_amqp::types::primitives::Value;
+    use fe2o3_amqp::{Receiver, Sender};
+    let cfg = RigCfg { peer_mfs: c.peer_mfs, ep_mfs: c.ep_mfs, choices: c.choices.clone(), ..RigCfg::default() };
+    let ClientRig { conn, mut sess, mut peer, my_ch, .. } = client_rig(cfg).await?;
+    let (mut sender, _a) = answer_attach(&mut peer, my_ch, Sender::builder().name("s").target("q").sender_settle_mode(fe2o3_amqp::types::definitions::SenderSettleMode::Settled).attach(&mut sess), |_a| Peer::attach_body("s", 4, true, None, None, None, None, false), |_a| vec![Peer::flow_body(Some(0), 100_000, 0, 100_000, Some(4), Some(0), Some(1000), false, false)]).await?;
+    let (mut receiver, _a) = answer_attach(&mut peer, my_ch, Receiver::builder().name("r").source("q").attach(&mut sess), |_a| Peer::attach_body("r", 9, false, None, None, Some(0), None, false), |_a| vec![]).await?;
+    let _ = peer.new_frames().await;
+    let limit = c.peer_mfs.min(c.ep_mfs.max(512)); // what both sides may rely on for the endpoint's output is the peer's value
+    let _ = limit;
+    let mut split_out = false;
+    // ---- outgoing: every frame within the peer's max-frame-size, payloads concatenate
+    for (i, sz) in c.out_sizes.iter().enumerate() {
+        let (m, enc) = data_message(i as u32, *sz);
+        sender.send(m).await.map_err(|e| format!("send #{i} failed: {e:?}"))?;
+        let fs = peer.new_frames().await;
+        let mut payload = Vec::new();
+        let mut n = 0;
+        let mut last_more = true;
+        for f in fs.iter().filter(|f| f.name() == "transfer") {
+            n += 1;
+            if f.size > c.peer_mfs {
+                return Err(format!("send #{i} ({} encoded bytes): the endpoint wrote a transfer frame of {} bytes, the peer advertised max-frame-size {} (the endpoint's own is {})", enc.len(), f.size, c.peer_mfs, c.ep_mfs));
+            }
+            payload.extend_from_slice(&f.payload);
+            last_more = as_bool(&f.field(5)).unwrap_or(false);
+        }
+        if last_more {
+            return Err(format!("send #{i}: the last transfer frame has more=true (or no transfer was written)"));
+        }
+        if payload != enc {
+            return Err(format!("send #{i}: the payloads of its {} transfer frames do not concatenate to the message ({} vs {} bytes)", n, payload.len(), enc.len()));
+        }
+        if n > 1 {
+            split_out = true;
+        }
+    }
+    // ---- incoming: frames of exactly ep_mfs - k bytes are legal and must be decoded
+    let mut did: u32 = 0;
+    let mut full_in = false;
+    for (i, k) in c.in_k.iter().enumerate() {
+        let total = c.ep_mfs as usize - *k as usize;
+        let (_m, enc) = data_message(1000 + i as u32, c.ep_mfs * 2 + 37);
+        let mut off = 0;
+        let mut first = true;
+        while off < enc.len() {
+            let perf = if first { Peer::transfer_body(9, Some(did), Some(&did.to_be_bytes()), Some(0), Some(true), true, None, false) } else { Peer::transfer_body(9, None, None, None, None, true, None, false) };
+            let plen = crate::refcodec::encode_compact(&perf).len();
+            let room = total - 8 - plen;
+            let take = room.min(enc.len() - off);
+            let last = off + take == enc.len();
+            let perf = if last {
+                if first { Peer::transfer_body(9, Some(did), Some(&did.to_be_bytes()), Some(0), Some(true), false, None, false) } else { Peer::transfer_body(9, None, None, None, None, false, None, false) }
+            } else {
+                perf
+            };
+            // compact encoding so that the frame size is exactly what was planned
+            let mut ch = Choices::new(vec![]);
+            let fr = rframe::build_frame(0, my_ch, Some(&perf), &enc[off..off + take], &mut ch);
+            if !last && fr.len() != total {
+                return Err(format!("HARNESS: planned a frame of {total} bytes, built {}", fr.len()));
+            }
+            if !last && *k == 0 {
+                full_in = true;
+            }
+            peer.send_bytes(&fr).await?;
+            off += take;
+            first = false;
+        }
+        did = did.wrapping_add(1);
+        let d = tokio::time::timeout(std::time::Duration::from_secs(30), receiver.recv::<Body<Value>>()).await.map_err(|_| format!("incoming delivery #{i} in frames of {total} bytes (endpoint's max-frame-size {}) was never returned by recv", c.ep_mfs))?.map_err(|e| format!("incoming delivery #{i} in frames of {total} bytes (the endpoint advertised max-frame-size {}): recv failed: {e:?}", c.ep_mfs))?;
+        let got = serde_amqp::to_vec(&fe2o3_amqp::types::messaging::message::__private::Serializable(d.message())).map_err(|e| e.to_string())?;
+        if got != enc {
+            return Err(format!("incoming delivery #{i} in frames of {total} bytes was reassembled to a different message"));
+        }
+        receiver.accept(&d).await.map_err(|e| format!("accept failed: {e:?}"))?;
+        let _ = peer.new_frames().await;
+    }
+    let _ = as_uint(&RValue::Null);
+    drop((sender, receiver, sess, conn));
+    Ok((split_out, full_in))
+}
+
 fn run(ctx: &ShardCtx, rep: &mut Report) {
     MAX_SHRINK_ITERS.store(400, std::sync::atomic::Ordering::Relaxed);
     pt_run(ctx, rep, "transport", ctx.budget(60_000, 3_000_000), case_strategy(), |c, o| case(ctx, c, o));
+    pt_run(ctx, rep, "endpoint", ctx.budget(30_000, 1_500_000), case_e_strategy(), |c, obs| {
+        let r = guarded(|| match simnet::run_case(c.tokio_seed, run_endpoint(c)).0 {
+            CaseEnd::Done(r) => r,
+            CaseEnd::Hang => Err(format!("HANG (virtual-time watchdog); wire so far:{}", simnet::describe_last_wire())),
+        });
+        match r {
+            Ok(Ok((split_out, full_in))) => {
+                if split_out {
+                    obs.class("endpoint:outgoing-split-to-peer-size");
+                }
+                if full_in {
+                    obs.class("endpoint:incoming-frame-of-exactly-max-size");
+                }
+                if c.peer_mfs < c.ep_mfs {
+                    obs.class("endpoint:peer-size-smaller");
+                }
+                if split_out || full_in {
+                    obs.nontrivial(c);
+                }
+                Ok(())
+            }
+            Ok(Err(e)) => {
+                obs.signature = Some(if e.starts_with("HARNESS") { "harness".into() } else if e.starts_with("HANG") { "hang".into() } else { "endpoint-frame-size".into() });
+                Err(e)
+            }
+            Err(p) => {
+                obs.signature = Some(panic_signature(&p[0]));
+                Err(format!("panic: {}", p.join(" | ")))
+            }
+        }
+    });
 }
 
 fn replay(variant: &str, case_json: &Json) -> Result<(), String> {
+    if variant.trim_end_matches("!raw") == "endpoint" {
+        let c: CaseE = serde_json::from_value(case_json.clone()).map_err(|e| format!("bad case: {e}"))?;
+        return match guarded(|| match simnet::run_case(c.tokio_seed, run_endpoint(&c)).0 {
+            CaseEnd::Done(r) => r.map(|_| ()),
+            CaseEnd::Hang => Err("HANG (virtual-time watchdog)".into()),
+        }) {
+            Ok(r) => r,
+            Err(p) => Err(format!("panic: {}", p.join(" | "))),
+        };
+    }
     let raw = variant.ends_with("!raw");
     let c: Case = serde_json::from_value(case_json.clone()).map_err(|e| format!("bad case: {e}"))?;
     let open = if raw { vec![] } else { open_ids_for("C06") };
